@@ -7,6 +7,12 @@ def succs_of_term(t):
     if k == "goto":
         return [t["target"]]
     if k == "switch":
+        d = t["discr"]
+        if d.get("k") == "const" and "val" in d:
+            for v, b in t["targets"]:
+                if v == d["val"]:
+                    return [b]
+            return [t["otherwise"]]
         return [b for _, b in t["targets"]] + [t["otherwise"]]
     if k in ("call",):
         return [t["target"]] if t["target"] is not None else []
@@ -23,7 +29,24 @@ class Fn:
         self.key = f["key"]
         self.blocks = f["blocks"]
         self.n = len(self.blocks)
-        self.succ = [succs_of_term(b["term"]) for b in self.blocks]
+        # locals with exactly one definition, which is a constant (`if false && ..`, `const` conditions)
+        ndefs = {}
+        cval = {}
+        for b in self.blocks:
+            for st in b["stmts"]:
+                if st["k"] == "assign" and not st["lhs"]["p"]:
+                    l = st["lhs"]["l"]
+                    ndefs[l] = ndefs.get(l, 0) + 1
+                    rv = st["rv"]
+                    if rv["k"] == "use" and rv["op"].get("k") == "const" and "val" in rv["op"]:
+                        cval[l] = rv["op"]["val"]
+                elif st["k"] == "assign":
+                    ndefs[st["lhs"]["l"]] = ndefs.get(st["lhs"]["l"], 0) + 2
+            t = b["term"]
+            if t["k"] == "call":
+                ndefs[t["dest"]["l"]] = ndefs.get(t["dest"]["l"], 0) + 2
+        self.const_locals = {l: v for l, v in cval.items() if ndefs.get(l) == 1 and l > f["argc"]}
+        self.succ = [self._succs(b["term"]) for b in self.blocks]
         self.pred = [[] for _ in range(self.n)]
         for i, ss in enumerate(self.succ):
             for s in ss:
@@ -37,6 +60,17 @@ class Fn:
         self.line = f["sp"]["line"]
         self.argc = f["argc"]
         self.locals = f["locals"]
+
+    def _succs(self, t):
+        if t["k"] == "switch" and t["discr"].get("k") in ("copy", "move") and not t["discr"]["pl"]["p"]:
+            l = t["discr"]["pl"]["l"]
+            if l in self.const_locals:
+                v = self.const_locals[l]
+                for val, b in t["targets"]:
+                    if val == v:
+                        return [b]
+                return [t["otherwise"]]
+        return succs_of_term(t)
 
     # ---- CFG ----
     def _reach(self, start, avoid=()):
